@@ -6,7 +6,6 @@ import (
 	"go/token"
 	"go/types"
 	"math/big"
-	"strings"
 )
 
 func newBig(s string) (*big.Int, bool) { return new(big.Int).SetString(s, 10) }
@@ -140,39 +139,33 @@ func (x *Exec) havocWorlds(s *State, ws WriteSet, tag string) {
 	if len(ws) == 0 {
 		return
 	}
-	for id := range s.Worlds {
+	for id := range x.worldsInScope(s) {
 		w := s.MutWorld(id)
 		ntag := Fresh(tag+".w", SInt).Name
 		if ws["bank"] || ws["*"] {
 			w.Bal = Var(ntag+".bal", w.Bal.S)
 			w.Supply = Var(ntag+".supply", w.Supply.S)
 		}
-		for fid, f := range w.Fams {
-			mod := fid
-			if i := strings.IndexByte(fid, '/'); i >= 0 {
-				mod = fid[:i]
-			}
-			if ws["*"] || ws[mod] {
-				nf := &FamState{Has: Var(ntag+"."+fid+".has", f.Has.S), Leaves: map[string]*Term{}, NKeys: f.NKeys, Tag: ntag, ID: fid}
-				w.Fams[fid] = nf
-			}
-		}
-		// families not yet touched in a written module must also change identity: bump the tag for those modules
-		if w.ModTag == nil {
-			w.ModTag = map[string]string{}
-		} else {
-			m := map[string]string{}
-			for k, v := range w.ModTag {
-				m[k] = v
-			}
-			w.ModTag = m
-		}
-		for mod := range ws {
-			w.ModTag[mod] = ntag
+		nrest := Var(ntag, SInt)
+		nm := map[string]*Term{}
+		for k, v := range w.RestMod {
+			nm[k] = v
 		}
 		if ws["*"] {
-			w.Tag = ntag
-			w.ModTag = map[string]string{}
+			w.Rest = nrest
+			nm = map[string]*Term{}
+		} else {
+			for mod := range ws {
+				if mod != "bank" {
+					nm[mod] = nrest
+				}
+			}
+		}
+		w.RestMod = nm
+		for fid := range w.Fams {
+			if ws["*"] || ws[modOfFam(fid)] {
+				delete(w.Fams, fid) // re-created lazily from the new remainder
+			}
 		}
 	}
 }
@@ -429,4 +422,28 @@ func (x *Exec) assumeElemFacts(s *State, v *Value) {
 	case KOpt:
 		x.assumeElemFacts(s, v.Inl)
 	}
+}
+
+// worldsInScope returns the worlds reachable through context values of the current call chain's variables
+// (a cache context created by a caller is not affected by code that only holds the inner context, and vice versa).
+func (x *Exec) worldsInScope(s *State) map[int]bool {
+	out := map[int]bool{}
+	for c := x.cur; c != nil; c = c.parent {
+		for e := c.env; e != nil; e = e.parent {
+			for _, cell := range e.vars {
+				if v := s.Heap[cell]; v != nil && v.K == KCtx {
+					if _, ok := s.Worlds[v.W]; ok {
+						out[v.W] = true
+					}
+				}
+			}
+		}
+		break // only the innermost frame: callers' contexts are not reachable from the callee
+	}
+	if len(out) == 0 {
+		for id := range s.Worlds {
+			out[id] = true
+		}
+	}
+	return out
 }
